@@ -103,6 +103,8 @@ class Block:
 
     def __init__(self, idx, line):
         self.idx, self.line, self.tok = idx, line, line.split()
+        if self.tok and self.tok[0] == "waitto":
+            self.tok[0] = "wait"  # same block shape as `wait`; the duration is not used by any monitor (they read the clock lines)
         self.t = None
         self.inp = None      # None (not a request) | "-" | value
         self.evs = []        # list of token lists (without "ev")
